@@ -222,6 +222,20 @@ def body_along(case):
         lat0, lon0 = g.find_lat_long_along_traj(np.zeros(k))
     off0 = angle(N, unit(np.asarray(lat0, dtype=float), np.asarray(lon0, dtype=float)))
     require(bool(np.all(off0 <= tol_off)), f"s = 0 does not return the ground spot (offset {off0.max():.3e} rad)")
+    # whole-kilometre distances handed over in a narrow numeric dtype (int8 .. int64, unsigned, float32, Python ints):
+    # the positions of the same numbers given as float64
+    dt = case.get("s_dtype")
+    if dt:
+        whole = np.clip(np.round(s), 0, None)
+        if dt not in ("float32", "pylist"):
+            whole = np.minimum(whole, np.iinfo(dt).max)
+        arg = [int(x) for x in whole] if dt == "pylist" else whole.astype(dt)
+        with cut(f"find_lat_long_along_traj(distances as {dt})"):
+            la_d, lo_d = [np.asarray(x, dtype=float) for x in g.find_lat_long_along_traj(np.asarray(arg) if dt == "pylist" else arg)]
+            la_f, lo_f = [np.asarray(x, dtype=float) for x in g.find_lat_long_along_traj(whole.astype(np.float64))]
+        d_off = angle(unit(la_d, lo_d), unit(la_f, lo_f))
+        require(bool(np.all(np.isfinite(la_d)) and np.all(np.isfinite(lo_d))) and bool(np.all(d_off <= 1e-9)), f"distances {whole[:4].tolist()} km given as {dt} lead to other positions than the same numbers given as float64 (angular difference up to {np.nanmax(d_off):.3e} rad; first {la_d[:2].tolist()} vs {la_f[:2].tolist()})")
+        labels.add("narrow_dtype_distances")
     if np.any(s > 0):
         labels.add("s_positive_kept")
     if np.any(s == 0):
@@ -321,7 +335,7 @@ SUBCHECKS = [
     ),
     SubCheck(
         "along_traj",
-        st.fixed_dictionaries({"cfg": gc.geom_config(), "u": gc.points(4, 48), "s": st.lists(dist, min_size=1, max_size=8)}),
+        st.fixed_dictionaries({"cfg": gc.geom_config(), "u": gc.points(4, 48), "s": st.lists(dist, min_size=1, max_size=8), "s_dtype": st.sampled_from([None, "int64", "int32", "int16", "int8", "uint8", "uint16", "uint32", "float32", "pylist"])}),
         body_along,
         _nt,
         {"quick": 1200, "thorough": 40000},
